@@ -315,22 +315,31 @@ func (v serviceView) topicStates(pattern string, min int) map[string]alert.Topic
 }
 
 // Findings of this unit. While a finding is open its input class is avoided by construction (counted in the
-// evidence); saved witnesses carry "witness": true and are run as they are.
+// evidence); saved witnesses carry "witness": true and are run as they are. Once a finding is repaired in the
+// repository its class is put back into the search by setting the constant to false (to try a repair in a
+// scratch worktree: VERIF_C09_INCLUDE=delete,update,drain).
 const (
 	// Service.DeleteTopic removes the running topic together with the registrations of its handler specs, but
 	// keeps the specs: they are still listed and stored, yet receive nothing until the daemon restarts.
-	excludeDeleteWithSpecs = true
-	sigDeadAfterDelete     = "service/handler-spec-dead-after-delete-topic"
+	openDeleteWithSpecs = true
+	sigDeadAfterDelete  = "service/handler-spec-dead-after-delete-topic"
 	// UpdateHandlerSpec onto the id of another handler of the topic overwrites that handler's spec but leaves
 	// its handler registered: unlisted and not removable, it keeps receiving every event.
-	excludeUpdateOntoExistingID = true
-	sigOrphanAfterUpdate        = "service/orphan-handler-after-update-onto-existing-id"
+	openUpdateOntoExistingID = true
+	sigOrphanAfterUpdate     = "service/orphan-handler-after-update-onto-existing-id"
 	// DeregisterHandlerSpec/UpdateHandlerSpec/CloseTopic/DeleteTopic/Close hold Service.mu, and Topics.DeregisterHandler/
 	// ReplaceHandler/Close hold Topics.mu, while they wait for the handler's goroutine to drain its queue; a publish (or
 	// aggregate) handler that is still inside Service.Collect needs Service.mu.RLock / Topics.mu.RLock: deadlock.
 	// Avoided by letting these steps start only when no handler goroutine is inside Service.Collect.
-	excludeDrainWhilePublishing = true
-	sigDrainDeadlock            = "service/deadlock-draining-publish-handler"
+	openDrainWhilePublishing = true
+	sigDrainDeadlock         = "service/deadlock-draining-publish-handler"
+)
+
+var (
+	include                     = os.Getenv("VERIF_C09_INCLUDE")
+	excludeDeleteWithSpecs      = openDeleteWithSpecs && !strings.Contains(include, "delete")
+	excludeUpdateOntoExistingID = openUpdateOntoExistingID && !strings.Contains(include, "update")
+	excludeDrainWhilePublishing = openDrainWhilePublishing && !strings.Contains(include, "drain")
 )
 
 var svcRec *kit.Rec
@@ -890,6 +899,11 @@ func (h *svcHarness) query(op SOp) {
 	for _, name := range kit.SortedKeys(h.model) {
 		checkTopic(h.x, v, name, h.model[name], eventIDs)
 		if h.x.failed() {
+			for _, sp := range h.specs {
+				if sp.orphan && sp.sink == name {
+					h.x.resig(sigOrphanAfterUpdate, "the target topic of a handler whose id was taken over by an update of another handler still receives events")
+				}
+			}
 			return
 		}
 	}
